@@ -1819,7 +1819,7 @@ def tier_c(run, thorough):
             case = dict(seed=n, n_stim=n, names='many', sort=1, exp='twoMa', version=2, participants=five, task_name='arrangement',
                         layout='rdm-rotated', order_differs=differs)
             bd.check(orc_meadows_mat_multi, case, 'many-stimuli', function='load_rdms_comps_mat')
-    if False:  # pending triage: two-stimuli-multi-participant
+    if True:   # repaired in /repo fe233573 (was pending triage): two-stimuli-multi-participant
         for parts in part_sets[:3]:
             for sort in (0, 1):
                 case = dict(seed=2, n_stim=2, names='equal-length', sort=sort, exp='twoMa', version=2, participants=parts,
@@ -1936,7 +1936,7 @@ def tier_c(run, thorough):
             if case.get('int_args'):
                 case['tr'] = float(max(1, int(case['tr'])))
             bd.check(orc_design_matrix, case, ic, function='make_design_matrix')
-    if False:  # pending triage: impulse-events-duration-0
+    if True:   # repaired in /repo 598bac6b (was pending triage): impulse-events-duration-0
         for dur in (0.0, 0.05):
             for seed in range(2):
                 case = dict(seed=2500 + seed, n_cond=2, n_rep=2, tr=2.0, dur=dur, order='random', labels='str', n_cf=None, nan_cols=[])
@@ -1983,7 +1983,7 @@ def tier_c(run, thorough):
             for mode in ('generic', 'data-orthogonal-to-filter'):
                 bd.check(orc_spm_filter, dict(dict(seed=5, nscans=nscans, ks=ks, P=3, mode=mode, sequence=True), **extra), ic,
                          function='SpmGlm.spm_filter')
-    if False:  # pending triage: integer-typed-data
+    if True:   # repaired in /repo 45fbf0df (was pending triage): integer-typed-data
         for nscans, ks in run_structs[2:5]:
             for dt in ('int16', 'int32', 'uint8'):
                 bd.check(orc_spm_filter, dict(seed=5, nscans=nscans, ks=ks, P=3, mode='generic', dtype=dt), 'integer-typed-data',
@@ -2027,11 +2027,11 @@ def tier_c(run, thorough):
         for conds in (['A'], ['Sn', 'bf', 'constantx']):
             bd.check(orc_spm_mat_file, dict(seed=nr, nscans=[4] * nr, ks=[2] * nr, P=2, conds=conds, windows=False),
                      'ten-or-more-runs', function='SpmGlm.get_info_from_spm_mat')
-    if False:  # pending triage: single-run-spm-mat
+    if False:  # NOT a C20 clause (dropped after triage: get_info_from_spm_mat is not among the functions the statement covers): single-run-spm-mat
         for conds in (['A'], ['face', 'house']):
             bd.check(orc_spm_mat_file, dict(seed=1, nscans=[6], ks=[2], P=2, conds=conds, windows=False), 'single-run-spm-mat',
                      function='SpmGlm.get_info_from_spm_mat')
-    if False:  # pending triage: condition-name-with-space
+    if False:  # NOT a C20 clause (dropped after triage: regressor names of get_info_from_spm_mat are outside the statement): condition-name-with-space
         bd.check(orc_spm_mat_file, dict(seed=1, nscans=[5, 6], ks=[2, 2], P=2, conds=['left hand', 'b'], windows=False),
                  'condition-name-with-space', function='SpmGlm.get_info_from_spm_mat')
     bd.done()
@@ -2051,7 +2051,7 @@ def tier_c(run, thorough):
         for old_root, win in (('/bla/dip', False), ('c:\\bla\\dip', True)):
             bd.check(orc_spm_relocate, dict(glm_dir='/path/glm_firstlevel', old_root=old_root, windows=win, tail=tail, index=',3  '),
                      'func-repeated-in-tail', function='SpmGlm.relocate_file')
-    if False:  # pending triage: old-root-contains-func
+    if False:  # NOT a C20 clause (dropped after triage: relocate_file is outside the statement): old-root-contains-func
         for old_root, win in (('/data/functional/proj', False), ('d:\\func_lab\\proj', True)):
             bd.check(orc_spm_relocate, dict(glm_dir='/path/glm_firstlevel', old_root=old_root, windows=win, tail=['func', 'abc.nii'],
                                             index=',1  '), 'old-root-contains-func', function='SpmGlm.relocate_file')
